@@ -519,6 +519,45 @@ func main() {
 		guard(s, "backend.JoinReqPayload JSON", pj, func(x []byte) { var f backend.JoinReqPayload; _ = json.Unmarshal(x, &f) })
 		guard(s, "backend.JoinAnsPayload JSON", pj, func(x []byte) { var f backend.JoinAnsPayload; _ = json.Unmarshal(x, &f) })
 	}
+	// text decoders on text that is not ASCII: runes whose case mapping changes their UTF-8 length (ſ ı İ ß K Å ǰ ΐ),
+	// combining marks, surrogates and invalid UTF-8, full-width digits, NUL, very long runs — alone, repeated, and
+	// spliced into otherwise valid texts at every position
+	specials := []string{"ſ", "ı", "İ", "ß", "\u212a", "\u212b", "ǰ", "ΐ", "ﬃ", "\u0301", "\u200b", "\ufeff", "０", "９", "Ｚ", "\x00", "\xff", "\xc3", "\xed\xa0\x80", "\U0010ffff", "é", "日", "𝟘"}
+	for i, sp := range specials {
+		if u, err := strconv.Unquote(`"` + sp + `"`); err == nil {
+			specials[i] = u
+		}
+	}
+	bases := []string{"", "2026-10-01T00:00:00Z", "2026-10-01t00:00:00z", "2026-10-01 00:00:00+01:00", "0102030405060708", "0x0a0b", "868.1", "ışık-ılık"}
+	textDecoders := func(t []byte) {
+		guard(s, "backend.ISO8601Time.UnmarshalText", t, func(x []byte) { var f backend.ISO8601Time; _ = f.UnmarshalText(x) })
+		guard(s, "backend.HEXBytes.UnmarshalText", t, func(x []byte) { var h backend.HEXBytes; _ = h.UnmarshalText(x) })
+		guard(s, "lorawan.EUI64.UnmarshalText", t, func(x []byte) { var e lorawan.EUI64; _ = e.UnmarshalText(x) })
+		guard(s, "lorawan.DevAddr.UnmarshalText", t, func(x []byte) { var e lorawan.DevAddr; _ = e.UnmarshalText(x) })
+		guard(s, "lorawan.NetID.UnmarshalText", t, func(x []byte) { var e lorawan.NetID; _ = e.UnmarshalText(x) })
+		guard(s, "lorawan.AES128Key.UnmarshalText", t, func(x []byte) { var e lorawan.AES128Key; _ = e.UnmarshalText(x) })
+		guard(s, "lorawan.PHYPayload.UnmarshalText", t, func(x []byte) { var e lorawan.PHYPayload; _ = e.UnmarshalText(x) })
+		q, _ := json.Marshal(string(t))
+		guard(s, "backend.ISO8601Time.UnmarshalJSON", q, func(x []byte) { var f backend.ISO8601Time; _ = json.Unmarshal(x, &f) })
+		guard(s, "backend.Frequency.UnmarshalJSON", t, func(x []byte) { var f backend.Frequency; _ = json.Unmarshal(x, &f) })
+		guard(s, "backend.Percentage.UnmarshalJSON", t, func(x []byte) { var f backend.Percentage; _ = json.Unmarshal(x, &f) })
+	}
+	nText := 0
+	for _, sp := range specials {
+		for _, rep := range []int{1, 2, 3, 6, 7, 11, 16, 33} {
+			textDecoders([]byte(strings.Repeat(sp, rep)))
+			nText++
+		}
+		for _, b := range bases {
+			for _, pos := range []int{0, 1, 4, 10, 11, len(b)} {
+				if pos <= len(b) {
+					textDecoders([]byte(b[:pos] + sp + b[pos:]))
+					nText++
+				}
+			}
+		}
+	}
+	s.Extra["non_ascii_text_probes"] = nText
 	if err := s.Finish(); err != nil {
 		fmt.Fprintln(os.Stderr, err)
 		os.Exit(2)
